@@ -1,13 +1,8 @@
 """Single source of truth for MANIFEST.json (bin/genmanifest)."""
 HOOK_COMMITS = ["f6aadb6", "84163bb", "bf252b3", "af52714"]  # short shas of the `verif hooks:` commits in /repo, oldest first
 # properties whose check has been integrated and verified on the unchanged tree (entries come from checks/entries/<id>.json)
-READY = {"C02", "C03", "C04", "C05", "C06", "C07", "C08", "C09", "C10", "C11", "C12", "C13", "C14", "C15", "C16", "C17", "C18", "C19", "C20"}
+READY = {"C01", "C02", "C03", "C04", "C05", "C06", "C07", "C08", "C09", "C10", "C11", "C12", "C13", "C14", "C15", "C16", "C17", "C18", "C19", "C20"}
 NOTES = ("Every check: bin/check <id> [--tier quick|thorough] [--replay path]; honours VERIF_SEED/VERIF_TIER; rebuilds the harness "
          "from /repo's working tree with -tags verif; scratch under /var/tmp, removed at exit. Exit 2 = machinery failure, never a violation.")
 NOT_APPLICABLE = {}
-CLAIMED = {
- "C01": dict(
-  technique="TLA+ reference codec (DataX.tla) model-checked with TLC; trace validation of real DataOutputX/DataInputX calls against it",
-  text="TLC explores every program of <=2 writes over the boundary value set (thorough: also with 65535/65536-byte payloads, and every program of 3 writes over a reduced boundary set) against the reference format (lossless, canonical, exact consumption, self-delimiting), and validates recorded calls of the real codec -- value, appended bytes, Size(), read result, Available() -- byte for byte against the same operators; a mismatch is a line TLC cannot take.",
-  note="Trusts TLC, the harness projection (encoding/binary, math.Float*bits) and that sampled programs (boundary-biased, all 24 op kinds, all length thresholds) represent the value space; 2^24/2^32 pattern spaces are sampled, not enumerated."),
-}
+CLAIMED = {}
